@@ -251,3 +251,51 @@ def c11_fetched_block_decoder_total(ctx, v):
     as C10 c10_m_block; verify_block's own handling of both outcomes is c11_verify_block_total)."""
     from . import obl_c10
     obl_c10.c10_m_block(ctx, v)
+
+
+def c11_tx_validate_total(ctx, v):
+    """Transaction::validate — run by the verification thread on every transaction a peer sends
+    and on every transaction of a fetched block — for transactions of EVERY type with 0, 1 or 3
+    inputs and 0..=2 outputs, every slip type / amount / index symbolic, signature and routing
+    verdicts free: it returns true or false; no index, unwrap or arithmetic panic that is driven
+    by the transaction's own content (amounts within the token supply, slip indices < 255)."""
+    from . import obl_c02
+    val = ctx.body(r"transaction::<impl at [^>]*>::validate$")
+    seen = 0
+    sizes = [(a, b) for a in (0, 1, 3) for b in (0, 1, 2)]   # 3 or more outputs: the bound-group scan over the outputs does not stay within the loop bound (stated)
+    for nin, nout in sizes:
+        ex = ctx.executor(loop_bound=max(nin, nout) + 8, inline="auto", max_paths=8000, no_inline=[r"verify_signature$", r"validate_routing_path$", r"is_slip_unlocked$", r"fmt", r"to_hex", r"to_base58"])
+        ex.pure = [r".*"]
+
+        def hook(ex_, st, callee, args, dty):
+            # verdicts of the cryptographic / ledger questions are explicit free inputs of this obligation
+            if re.search(r"verify_signature$|validate_routing_path$", callee):   # is_slip_unlocked stays an unknown: it guards the key parse that follows it
+                return z3.Bool("verdict:%s!%d" % (callee.split("::")[-1], next(ex_.fresh_counter)))
+            return None
+        ex.on_call = hook
+        L.install_slip_key_model(ctx, ex)
+        tx, ins, outs_, ttype, pre = obl_c02._tx(ctx, ex, nin, nout)
+        SUP = 7 * 10**17
+        pre = pre + [z3.ULE(L.slip_field(ctx, s, "amount").bv, SUP) for s in ins + outs_] + [z3.ULT(L.slip_field(ctx, s, "slip_index").bv, 255) for s in ins + outs_]
+        st = S.State()
+        st.pc.extend(pre)
+        outs = ex.run(val, [S.Ref(S.Cell(tx)), S.Ref(S.Cell(S.Opaque("utxoset", "AHashMap"))), S.Ref(S.Cell(S.Opaque("blockchain", "Blockchain"))), z3.BoolVal(True)], st)
+        v.paths += len(outs)
+        for o in outs:
+            if o.kind in ("unsupported", "unwound", "path-limit"):
+                return v.undecided("%d in / %d out: %s %s" % (nin, nout, o.kind, o.info))
+            if o.kind == "return":
+                seen += 1
+            if o.kind != "panic" or not _input_driven(o):
+                continue
+            r, m = ex.model_for(o.pc)
+            v.queries += 1
+            if r == z3.sat:
+                if L.depends_on_unknowns(o):
+                    continue    # hinges on an unmodelled callee's answer: not judged (stated)
+                tname = [nm for nm, d in ctx.enums["TransactionType"] if d == m.eval(ttype.discr.bv, model_completion=True).as_long()]
+                v.fail("a %s transaction with %d input(s) and %d output(s) makes Transaction::validate panic: %s" % (tname[0] if tname else "?", nin, nout, o.info))
+            elif r != z3.unsat:
+                return v.undecided("solver: no verdict on a panic path")
+    v.covers_total += 1
+    v.covers_sat += 1 if seen else 0
